@@ -369,12 +369,13 @@ func (blockchain *Blockchain) verifyNeighborBlockchain(timestamp int64, neighbor
 		Blocks []*ledger.Block
 		Err    error
 	}
-	blocksChannel := make(chan *ChanResult)
+	blocksChannel := make(chan *ChanResult, 1)
 	go func(neighbor application.Sender) {
 		defer close(blocksChannel)
 		neighborBlocksBytes, err := neighbor.GetBlocks(startingBlockHeight)
 		if err != nil {
 			blocksChannel <- &ChanResult{Err: fmt.Errorf("failed to get neighbor's blockchain: %w", err)}
+			return
 		}
 		var neighborBlocks []*ledger.Block
 		err = json.Unmarshal(neighborBlocksBytes, &neighborBlocks)
